@@ -16,12 +16,10 @@ Init == l = 1
 Next == l <= Len(Rec) /\ l' = l + 1
 Syms(S)  == SSyms(S) \o ISyms(S)
 \* names reachable from the roots of a system
-RECURSIVE Below(_, _)
-Below(nodes, i) == {i} \cup UNION { Below(nodes, nodes[i].a[j]) : j \in 1..Len(nodes[i].a) }
 Roots(S) == { S.states[i].init : i \in 1..Len(S.states) } \cup { S.states[i].next : i \in 1..Len(S.states) }
             \cup { S.outputs[i].expr : i \in 1..Len(S.outputs) } \cup { S.bads[i] : i \in 1..Len(S.bads) }
             \cup { S.constraints[i] : i \in 1..Len(S.constraints) }
-UsedNames(S) == { S.nodes[i].name : i \in { j \in UNION { Below(S.nodes, r) : r \in Roots(S) \ {0} } : IsSym(S.nodes[j]) } }
+UsedNames(S) == { S.nodes[i].name : i \in { j \in ReachFrom(S.nodes, Roots(S) \ {0}) : IsSym(S.nodes[j]) } }
 Declared(S)  == { S.states[i].name : i \in 1..Len(S.states) } \cup { S.inputs[i].name : i \in 1..Len(S.inputs) }
 ZeroOf(t) == IF t.k = "bv" THEN Zero(t.w) ELSE [iw |-> t.iw, dw |-> t.dw, def |-> Zero(t.dw), m |-> [ix \in AllBV(IF t.iw <= 4 THEN t.iw ELSE 1) |-> Zero(t.dw)]]
 Shape(r) ==
